@@ -2,7 +2,7 @@
 import enc_engine
 import isa
 
-GEN_UNITS = ['Encoders']
+GEN_UNITS = ['Encoders', 'Guards']
 ASSUMPTIONS = ['operands reach the encoders as Python int / str (the arg type of the model)']
 
 
